@@ -13,7 +13,7 @@ From Coq Require Import List ZArith Bool Relations.
 Import ListNotations.
 Require Import Gram.Model.ModelB.
 Require Import Gram.Model.Term Gram.Model.DeBruijn Gram.Model.Eval Gram.Spec.Typing Gram.Oracle.Infer Gram.Proofs.InferSound Gram.Proofs.TcSoundHF.
-Require Gram.Proofs.ScopeStore.
+Require Gram.Proofs.ScopeStore Gram.Proofs.AcyclicProofs Gram.Proofs.UnifyConsistent Gram.Proofs.TcSoundHoles Gram.Proofs.TcHolesOk.
 
 Theorem C03_whnf_sound : forall fuel G t u, whnf fuel G t = Some u -> clos_refl_trans term (red G) t u.
 Proof. exact whnf_sound. Qed.
@@ -91,3 +91,49 @@ Theorem C03_wrong_variable_D19 : ltac:(let T := type of Gram.Proofs.ScopeStore.C
 Proof. exact Gram.Proofs.ScopeStore.CE.tcB_wrong_variable. Qed.
 Check C03_wrong_variable_D19 : _ /\ _ = true.
 Print Assumptions C03_wrong_variable_D19.
+
+(* SOUNDNESS WITH HOLES, for every run during which neither instrumented event occurs (Proofs/TcSoundHoles.v). `tcN` is
+   the checker of Model B over the aborting `unifyN` / `openN` / `ushiftN` of C12 (hooks H1 / H3). When it answers, the real
+   checker model gives the same answer (tcN_refines); the elaborated term is the input; and if no error is reported, then -
+   with the cells still unsolved at the end filled by any hole-free `v` - the program is well typed at the reported type,
+   provided the contents of the holes THE USER WROTE are types (`holes_ok`: the checker's rule for `_` claims the type
+   `type`; for a cell left unsolved this says the filler must be a type, which is necessary: `(x : 3) => 3` has no type).
+   The two recorded witnesses abort (D9, D19), and no third event is needed. *)
+Theorem C03_checker_model_sound_when_hooks_are_silent : forall H f s t r v,
+  TcSoundHoles.store_okM H s -> AcyclicProofs.acyclic s -> TcSoundHoles.wsM H 0 t -> TcSoundHoles.tcN f s [] [] t = Some r -> b_errs r = [] -> hole_free v = true ->
+  TcSoundHoles.holes_ok (UnifyConsistent.fill v (b_st r)) t [] ->
+  tcB f s [] [] t = Some r /\ b_elab r = t /\
+  exists eu Tu, TcSoundHF.zk (UnifyConsistent.fill v (b_st r)) (b_elab r) eu /\ TcSoundHF.zk (UnifyConsistent.fill v (b_st r)) (b_ty r) Tu /\ has_type [] eu Tu.
+Proof. exact TcSoundHoles.tcN_sound_closed. Qed.
+Check C03_checker_model_sound_when_hooks_are_silent : forall H f s t r v,
+  TcSoundHoles.store_okM H s -> AcyclicProofs.acyclic s -> TcSoundHoles.wsM H 0 t -> TcSoundHoles.tcN f s [] [] t = Some r -> b_errs r = [] -> hole_free v = true ->
+  TcSoundHoles.holes_ok (UnifyConsistent.fill v (b_st r)) t [] ->
+  tcB f s [] [] t = Some r /\ b_elab r = t /\
+  exists eu Tu, TcSoundHF.zk (UnifyConsistent.fill v (b_st r)) (b_elab r) eu /\ TcSoundHF.zk (UnifyConsistent.fill v (b_st r)) (b_ty r) Tu /\ has_type [] eu Tu.
+Print Assumptions C03_checker_model_sound_when_hooks_are_silent.
+
+Theorem C03_instrumented_checker_refines : forall f s G D t r, TcSoundHoles.tcN f s G D t = Some r -> tcB f s G D t = Some r.
+Proof. exact TcSoundHoles.tcN_refines. Qed.
+Check C03_instrumented_checker_refines : forall f s G D t r, TcSoundHoles.tcN f s G D t = Some r -> tcB f s G D t = Some r.
+Print Assumptions C03_instrumented_checker_refines.
+
+Theorem C03_recorded_witnesses_abort : ltac:(let T1 := type of TcSoundHoles.WitnessT.D9_witness_aborts in let T2 := type of TcSoundHoles.WitnessT.D19_witness_aborts in exact (T1 /\ T2)).
+Proof. exact (conj TcSoundHoles.WitnessT.D9_witness_aborts TcSoundHoles.WitnessT.D19_witness_aborts). Qed.
+Check C03_recorded_witnesses_abort : _ /\ _.
+Print Assumptions C03_recorded_witnesses_abort.
+
+(* ... and without any hypothesis on the holes for the simply typed fragment (`simple`: no type used as a term, annotations
+   omitted or base types): every solution the checker records is a base type (Proofs/TcHolesOk.v) *)
+Theorem C03_sound_with_inferred_annotations_simply_typed : forall H f s t r v,
+  TcHolesOk.simple t = true -> TcHolesOk.J s -> TcSoundHoles.store_okM H s -> AcyclicProofs.acyclic s -> TcSoundHoles.wsM H 0 t ->
+  TcSoundHoles.tcN f s [] [] t = Some r -> b_errs r = [] -> TcSoundHoles.base_ty v = true ->
+  tcB f s [] [] t = Some r /\ b_elab r = t /\
+  exists eu Tu, TcSoundHF.zk (UnifyConsistent.fill v (b_st r)) t eu /\ TcSoundHF.zk (UnifyConsistent.fill v (b_st r)) (b_ty r) Tu /\ has_type [] eu Tu /\ TcSoundHoles.base_ty Tu = true.
+Proof. exact TcHolesOk.tcN_sound_simple. Qed.
+Check C03_sound_with_inferred_annotations_simply_typed : forall H f s t r v,
+  TcHolesOk.simple t = true -> TcHolesOk.J s -> TcSoundHoles.store_okM H s -> AcyclicProofs.acyclic s -> TcSoundHoles.wsM H 0 t ->
+  TcSoundHoles.tcN f s [] [] t = Some r -> b_errs r = [] -> TcSoundHoles.base_ty v = true ->
+  tcB f s [] [] t = Some r /\ b_elab r = t /\
+  exists eu Tu, TcSoundHF.zk (UnifyConsistent.fill v (b_st r)) t eu /\ TcSoundHF.zk (UnifyConsistent.fill v (b_st r)) (b_ty r) Tu /\ has_type [] eu Tu /\ TcSoundHoles.base_ty Tu = true.
+Print Assumptions C03_sound_with_inferred_annotations_simply_typed.
+
